@@ -124,6 +124,14 @@ def run(F, res, tier):
             if why is None and in_parser(p) and p in PR["functions"] + ["syntax::parser::Parser::bump", "syntax::parser::Parser::nth"] and parser_ok \
                     and kind == "explicit" and detail == "assert!":
                 why = "parser precondition: decided unreachable for every token sequence by engine P (C02/P1)"
+            if why is None and p == "syntax::parser::Parser::nth" and kind == "explicit" and detail == "panic!" and parser_ok and not lv:
+                # the progress guard: unreachable when every loop consumes (P2), no recursion stands still (P3) and the look-aheads
+                # made while returning through at most MAX_NESTING levels stay below the fuel (P4, P5a, P5b)
+                from rules import c02 as _c02
+                NS = _c02.nesting_status(F, PR)
+                if NS["ok"] and not PR["noprog_cycles"]:
+                    why = "the fuel cannot run out: loops and recursion consume (C02 P2, P3), nesting is cut at %s levels and %s x %s + %s + %s = %s look-aheads < fuel %s (C02 P5)" % (
+                        NS["limit"], NS["limit"], NS["heaviest_level"], NS["non_recursive_tails"], NS["head"], NS["bound"], NS["fuel"])
             if why:
                 res.ob("Q1", full, desc, True, where=f.loc(ln), how="discharged: " + why)
                 continue
